@@ -195,6 +195,9 @@ def curve_probes(F, label, rnd):
                 for n in ((1, 5, 100000) if (op != 'wnaf_sb' and h == '' and k in (3, R - 1, (1 << 255) - 1)) else (1,)):
                     kv = dict(op=op, k=hex(k), k0=h, n=str(n)); kv.update(pt_args(F, 'p', jac(F, Rs, lam)))
                     cases.append((op, kv, ec_mul(F, k, Rs)))
+                    if h and op != 'wnaf_staged':          # the same history on a DIFFERENT base point (a stale table must not survive)
+                        kv2 = dict(kv); kv2.update(pt_args(F, 'q', jac(F, Qp, None)))
+                        cases.append((op, kv2, ec_mul(F, k, Rs)))
     for k in ks:
         kv = dict(op='precomp_3', k=hex(k)); kv.update(pt_args(F, 'p', jac(F, P, None)))
         cases.append(('precomp_3', kv, ec_mul(F, k, P)))
